@@ -92,10 +92,11 @@ def check_bracket(rep, db, f, inst, kind):
                 rep.violation(rule, site(f) + " [identity]", "%s carries %s, expected %s" % (q.short(evs[idx].a), [fmt(x) for x in got], [fmt(x) for x in want]), evs[idx].loc, inst)
                 return
         # the closing notification must come from a scope guard constructed before anything that can abort
-        if not any(nm.startswith("rlbox::detail::scope_exit::~scope_exit") or "scope_exit::~scope_exit" in nm for nm, _l in evs[b].stack):
+        if not any("::~" in nm for nm, _l in evs[b].stack):  # inside the destructor of an automatic object (any RAII guard)
             rep.violation(rule, site(f) + " [guard]", "the closing notification is not issued by a scope guard: it is skipped when the crossing ends by an exception", evs[b].loc, inst)
             return
-        ctors = [i for i, e in enumerate(evs) if e.kind == "CTOR" and "scope_exit" in (e.b or "")]
+        dtor_types = {e.b for e in evs if e.kind == "DTOR" and isinstance(e.b, str)}
+        ctors = [i for i, e in enumerate(evs) if e.kind == "CTOR" and ("scope_exit" in (e.b or "") or any((e.b or "").startswith(t) for t in dtor_types))]
         # which guard object runs the closing hook: DTOR event preceding b at lower depth
         dt = [i for i, e in enumerate(evs[:b]) if e.kind == "DTOR"]
         gobj = evs[dt[-1]].a if dt else None
@@ -116,7 +117,7 @@ def check_bracket(rep, db, f, inst, kind):
         if len(pb) != 1 or pb[0] < c:
             rep.violation(rule, site(f) + " [timing]", "expected exactly one timing record pushed after the crossing (found %d)" % len(pb), f["loc"], inst)
             return
-        if not any("scope_exit::~scope_exit" in nm for nm, _l in evs[pb[0]].stack):
+        if not any("::~" in nm for nm, _l in evs[pb[0]].stack):
             rep.violation(rule, site(f) + " [timing]", "the timing record is not pushed by a scope guard", evs[pb[0]].loc, inst)
             return
         recobj = evs[pb[0]].b[0]
